@@ -227,67 +227,3 @@ pub fn witness_d5_512_plies_overflow_state_stack() {
         g.push_history(m);     // ply 511 (the 512th push) exceeds the stack: debug assertion in arrayvec / UB in release
     }
 }
-
-// =================================================================================================
-// `position fen ...` arm of command_position (slice verif_position_fen) -- C17: a refused FEN is an error
-// and leaves no position behind; an accepted one replaces whatever was loaded before
-// =================================================================================================
-#[cfg(kani)]
-pub mod pfen {
-    use super::*;
-    pub static mut ACCEPT: bool = true;
-    pub static mut SEEN_OK: bool = false;
-    pub static mut MARK: u64 = 0;
-    /// abstract FEN reader: any verdict; an accepted game carries a recognisable hash
-    pub fn game_new(fen: &str) -> anyhow::Result<Game> {
-        unsafe {
-            let _ = fen;
-            SEEN_OK = crate::chess::verif_chess::fen::sink::LEN == 4 && crate::chess::verif_chess::fen::sink::BUF[0] == b'a' && crate::chess::verif_chess::fen::sink::BUF[1] == b' '
-                && crate::chess::verif_chess::fen::sink::BUF[2] == b'b' && crate::chess::verif_chess::fen::sink::BUF[3] == b' ';
-            if ACCEPT {
-                let mut g = crate::chess::verif_chess::mk::game_side_only(true);
-                crate::chess::verif_chess::mk::set_hash(&mut g, MARK);
-                Ok(g)
-            } else {
-                Err(anyhow::anyhow!("refused"))
-            }
-        }
-    }
-}
-#[cfg(kani)]
-#[kani::proof]
-#[kani::unwind(12)]
-#[kani::stub(Game::new, pfen::game_new)]
-#[kani::stub(std::backtrace::Backtrace::capture, backtrace_disabled)]
-#[kani::stub(alloc::fmt::format, format_empty)]
-#[kani::stub(std::string::String::push_str, crate::chess::verif_chess::fen::sink::push_str)]
-#[kani::stub(std::string::String::push, crate::chess::verif_chess::fen::sink::push)]
-pub fn position_fen_contract() {
-    use crate::chess::verif_chess::mk;
-    let had_game = nd::bool();
-    let old_mark = nd::u64();
-    let new_mark = nd::u64();
-    nd::assume(old_mark != new_mark);
-    let mut old = mk::game_side_only(false);
-    mk::set_hash(&mut old, old_mark);
-    let mut data = Data { current_game: if had_game { Some(old) } else { None }, cache: HashMap::with_hasher(BuildNoHashHasher::default()) };
-    let accept = nd::bool();
-    unsafe { pfen::ACCEPT = accept; pfen::MARK = new_mark; pfen::SEEN_OK = false; crate::chess::verif_chess::fen::sink::LEN = 0; }
-    let with_moves = nd::bool();
-    let text = if with_moves { "a b moves c" } else { "a b" };
-    let mut terms = text.split_ascii_whitespace();
-    let mut add_moves = false;
-    let r = verif_position_fen(&mut data, &mut terms, &mut add_moves);
-    let ok = r.is_ok();
-    core::mem::forget(r);
-    assert!(unsafe { pfen::SEEN_OK }, "C17: the FEN reader is not handed the fields of the command joined by single spaces");
-    if accept {
-        assert!(ok, "C17: an accepted FEN is reported as an error");
-        assert!(data.current_game.as_ref().map(|g| g.hash()) == Some(new_mark), "C17: after an accepted FEN the current game is not the imported one");
-        assert!(add_moves == with_moves, "C12: the `moves` keyword after the FEN is not recognised");
-    } else {
-        assert!(!ok, "C17: a refused FEN is not reported as an error");
-        assert!(data.current_game.is_none(), "C17: after a refused FEN a position (the previous one) is still loaded and would silently be used");
-    }
-    vcover!(!accept && had_game, "refused FEN with a previous game reachable");
-}
